@@ -233,6 +233,30 @@ NativeSetMem(tp, st, c, r, kinds, how, must) ==
 
 MemArgsBad(c) == Unknown(c.flags, MB_ALL) \/ ~PolicyOK(c.pol)
 
+(* ------------------------------------------------------------------ *)
+(* "replaces a set that covers the whole topology by the complete set" *)
+(* and the documented cpuset -> nodeset conversion, as an equivalence: *)
+(* a memory binding request is handled as its CANONICAL form, the      *)
+(* nodeset flavour with the fixed set.  Whatever hwloc hands to the OS *)
+(* and answers is a function of the canonical form and of what the OS  *)
+(* answered, so two requests with the same canonical form must be      *)
+(* handled alike (also where no node mask reaches the OS: FIRSTTOUCH,  *)
+(* DEFAULT, a refusal before the OS).                                  *)
+(* ------------------------------------------------------------------ *)
+Fixable(tp, c) == c.op \in MemSetOps /\ ~MemArgsBad(c) /\ ~MemSetBad(tp, c) /\ ~Unmappable(tp, c)
+CanonCall(tp, c) == [c EXCEPT !.flags = IF ByNode(c) THEN c.flags ELSE c.flags + MB_BYNODESET,
+                              !.set   = MemFix(tp, c)]
+\* a, b: [ret, err, sys] of two requests with the same canonical form.  The requests made to the OS are the
+\* same up to and including the first one the OS answered differently; if the OS never answered differently the
+\* whole exchange and the result are the same.
+SameHandling(a, b) ==
+  LET n    == IF Len(a.sys) < Len(b.sys) THEN Len(a.sys) ELSE Len(b.sys)
+      Req(x) == <<x.k, x.t, x.mask>>
+      d    == {i \in 1..n : a.sys[i] # b.sys[i]}
+  IN IF d = {} THEN Len(a.sys) = Len(b.sys) /\ a.ret = b.ret /\ (a.ret = -1 => a.err = b.err)
+     ELSE LET i == CHOOSE j \in d : \A k \in d : j <= k IN Req(a.sys[i]) = Req(b.sys[i])
+Handling(r) == [ret |-> r.ret, err |-> r.err, sys |-> r.sys]
+
 RelSetMembind(tp, st, c, r) ==
   IF MemArgsBad(c) \/ MemSetBad(tp, c) THEN Einval(st, r)
   ELSE IF Unmappable(tp, c) THEN Refused(st, r)
